@@ -632,6 +632,11 @@ class Scores:
 
         if method == "linear":
             threshold = la * scores[left_idx] + (1 - la) * scores[right_idx]
+            # Interpolating between two equal scores must return that score exactly;
+            # the convex sum above can be off by one ulp.
+            threshold = np.where(
+                scores[left_idx] == scores[right_idx], scores[left_idx], threshold
+            )
         elif method == "lower":
             threshold = scores[left_idx]
         else:  # "higher"
